@@ -46,7 +46,10 @@ Definition has_state (t : otype) : bool := match t with OpaqueData => false | _ 
 (* isinstance(managed_object, objects.Key) *)
 Definition is_key (t : otype) : bool :=
   match t with SymmetricKey | PublicKey | PrivateKey | SplitKey => true | _ => false end.
-(* _build_core_object gives a secret with a key_block *)
+(* _process_mac: object types accepted as a MAC key *)
+Definition mac_kind_b (t : otype) : bool :=
+  match t with SymmetricKey | SecretData => true | _ => false end.
+(* _process_get: object types that can be wrapped (their core secret has a key_block) *)
 Definition has_key_block (t : otype) : bool :=
   match t with SymmetricKey | PublicKey | PrivateKey | SplitKey | SecretData => true | _ => false end.
 (* _process_derive_key: suitable base object types *)
@@ -106,7 +109,8 @@ Inductive outcome :=
 | Refused (r : refusal) (k : reason)   (* a guard raised a KmipError before the crypto engine was reached *)
 | CryptoFail                           (* all guards passed, the CryptographyEngine call raised *)
 | CrashBefore                          (* non-KMIP exception before the crypto engine (GENERAL_FAILURE) *)
-| CrashAfter.                          (* non-KMIP exception after a successful crypto call *)
+| CrashAfter.                          (* non-KMIP exception after a successful crypto call (an observation class;
+                                          the model of the current code never produces it) *)
 
 Definition refusal_eqb (a b : refusal) : bool :=
   match a, b with
@@ -216,8 +220,9 @@ Definition step (cok : bool) (s : store) (o : op) : outcome * store :=
       | Some ob =>
           if negb (alg || is_key (oty ob)) then (Refused RParams PermissionDenied, s)
           else if negb data then (Refused RParams PermissionDenied, s)
+          else if negb (mac_kind_b (oty ob)) then (Refused RType PermissionDenied, s)
           else match ost ob with
-               | None => (CrashBefore, s)           (* AttributeError: OpaqueObject has no .state *)
+               | None => (CrashBefore, s)           (* .state of an object without one; unreachable after the type guard *)
                | Some st =>
                    if negb (state_eqb st Active) then (Refused RState PermissionDenied, s)
                    else if negb (has_bit (omask ob) bMAC_GENERATE) then (Refused RMask PermissionDenied, s)
@@ -243,8 +248,8 @@ Definition step (cok : bool) (s : store) (o : op) : outcome * store :=
               if negb (otype_eqb (oty k) SymmetricKey) then (Refused RType IllegalOperation, s)
               else if negb (is_active k) then (Refused RState PermissionDenied, s)
               else if negb (has_bit (omask k) bWRAP_KEY) then (Refused RMask PermissionDenied, s)
-              else if cok then (if has_key_block (oty ob) then (OK, s) else (CrashAfter, s))
-              else (CryptoFail, s)
+              else if negb (has_key_block (oty ob)) then (Refused RType IllegalOperation, s)
+              else if cok then (OK, s) else (CryptoFail, s)
           end
       end
   end.
